@@ -320,6 +320,25 @@ func genC08(t *rapid.T) (*DCase, map[string]bool) {
 		probe()
 		g.labels["parameter-shadows-global-in-case-body"] = true
 	}
+	if g.b("sitereuse") {
+		// a call site with two arguments whose later argument recurses through the very same
+		// site, used again after a first complete recursion: every activation binds its own values
+		items = append(items,
+			ast.Func("add2", []string{"aa", "ab"}, ast.Block(ast.Return(ast.Bin("+", ast.Id("aa"), ast.Id("ab"))))),
+			ast.Func("rsum", []string{"rn"}, ast.Block(ast.If(ast.Bin("<=", ast.Id("rn"), ast.Num("0")), ast.Block(ast.Return(ast.Num("0")))),
+				ast.Return(ast.Call(ast.Id("add2"), ast.Id("rn"), ast.Call(ast.Id("rsum"), ast.Bin("-", ast.Id("rn"), ast.Num("1"))))))),
+			ast.Func("idf", []string{"iv"}, ast.Block(ast.Return(ast.Id("iv")))),
+			ast.Func("rdeep", []string{"dn"}, ast.Block(ast.If(ast.Bin("<=", ast.Id("dn"), ast.Num("0")), ast.Block(ast.Return(ast.Num("0")))),
+				ast.Return(ast.Bin("+", ast.Call(ast.Id("idf"), ast.Call(ast.Id("rdeep"), ast.Bin("-", ast.Id("dn"), ast.Num("1")))), ast.Num("1"))))))
+		for _, n := range []int{g.n(2, 5, "rs1"), g.n(2, 5, "rs2"), g.n(2, 6, "rs3")} {
+			stmts = append(stmts, ast.Print(ast.Str("RS"), ast.Call(ast.Id("rsum"), ast.Num(fmt.Sprint(n)))))
+		}
+		rdepth := fmt.Sprint(g.n(2, 60, "rdepth")) // (depths near the limit: the fixed cases of TestC08)
+		// the recursive call stands in the argument of another call: only genuinely nested
+		// calls count towards the limit, so a depth of 3000 is fine
+		stmts = append(stmts, ast.Print(ast.Str("RD"), ast.Call(ast.Id("rdeep"), ast.Num(rdepth))))
+		g.labels["call-site-reused-by-its-own-argument"] = true
+	}
 	ncalls := g.n(1, 4, "ncalls")
 	for k := 0; k < ncalls; k++ {
 		r := fmt.Sprintf("r%d", k)
@@ -542,6 +561,36 @@ func TestC08(t *testing.T) {
 		}
 	}
 	rec.Exhaustive("(b) 8 constructs x N in {1,2,100,4095,4096,4097,5000,20000,65535,65537,70000} x {elements, loop iterations}")
+
+	// (c) only genuinely nested calls count towards the limit: a recursion whose recursive
+	// call stands in the argument of another call (which is entered only after the
+	// argument has returned), or runs beside completed sibling calls, reaches the same
+	// depth as the plain one (direct oracle: the value)
+	if shard == 0 {
+		type deepCase struct {
+			Prog string `json:"prog"`
+			N    int    `json:"n"`
+		}
+		shapes := []string{
+			"function idf(v) { return v }\nfunction rdeep(n) { if (n <= 0) { return 0 }\nreturn idf(rdeep(n - 1)) + 1 }\nBEGIN { print rdeep(%d) }",
+			"function idf(v) { return v }\nfunction rdeep(n) { if (n <= 0) { return 0 }\nx = idf(n) + idf(idf(n))\nreturn 1 + rdeep(idf(n) - 1) }\nBEGIN { print rdeep(%d) }",
+			"function add2(a, b) { return a + b }\nfunction rsum(n) { if (n <= 0) { return 0 }\nreturn add2(1, rsum(n - 1)) }\nBEGIN { print rsum(3), rsum(%d), rsum(4) }",
+		}
+		for si, shape := range shapes {
+			for _, n := range []int{10, 1000, 2040, 2050, 3000, 4000} {
+				src := fmt.Sprintf(shape, n)
+				o := run.InProc(src, nil, nil, run.Opts{Budget: 50_000_000})
+				want := fmt.Sprintf("%d\n", n)
+				if si == 2 {
+					want = fmt.Sprintf("3 %d 4\n", n)
+				}
+				rec.Case(fmt.Sprintf("deep-arg %d %d", si, n), n > 2048, "recursion-through-an-argument")
+				if o.Class != "ok" || string(o.Stdout) != want {
+					rec.Violation("deep-argument", deepCase{src, n}, src, fmt.Sprintf("recursion of depth %d through an argument of another call: outcome %s (%s), output %q, expected %q", n, o.Class, o.Msg, clip(string(o.Stdout)), want))
+				}
+			}
+		}
+	}
 
 	// the one-element unit of each construct against refjq (text programs are
 	// parsed by nobody here: the unit is rebuilt as an AST in genC08's style, so
